@@ -234,7 +234,7 @@ impl Real {
                 if !self.known.contains_key(&k) {
                     let d = t_bytes(&rec, "_data").unwrap_or_default();
                     if format!("{CHUNK_PREFIX}{}", compute_hash(&d)) != k {
-                        rep.violation("tensor_blob.store_chunk/key_not_content_hash", "a new chunk record is not keyed by the hash of its data", input());
+                        vio(rep, "tensor_blob.store_chunk/key_not_content_hash", "a new chunk record is not keyed by the hash of its data", input());
                     }
                     self.known.insert(k, d);
                 }
@@ -291,6 +291,16 @@ impl Real {
         let full = bytes.len() / self.chunk;
         (0..full).map(|i| format!("{CHUNK_PREFIX}{}", compute_hash(&bytes[i * self.chunk..(i + 1) * self.chunk]))).collect()
     }
+}
+
+/// `Report` keeps at most 50 violations: forward only the first few of each class (all of them are counted in the
+/// distribution as `violations.<class>`), so that known classes can never crowd out a new one.
+fn vio(rep: &mut Report, class: &str, what: &str, input: Value) {
+    let key = format!("violations.{class}");
+    if rep.distribution.get(&key).copied().unwrap_or(0) < 3 {
+        rep.violation(class, what, input);
+    }
+    rep.hit(&key);
 }
 
 /// The blob store's async functions never suspend (no await point that can pend) except the background task:
@@ -447,7 +457,7 @@ fn run_case(m: &mut Model, rep: &mut Report, stream: &str, chunk: usize, max: Op
                             if !r.damaged && back.as_ref().ok() != Some(&ow.bytes) {
                                 let site = ow.lost_to.iter().next().copied().unwrap_or("writer");
                                 let class = format!("tensor_blob.{site}/live_chunk_collected");
-                                rp!().violation(&class, "an artifact whose streaming writer was open while the collector ran finished successfully but cannot be read back: the collector removed chunks the writer had already stored", input());
+                                vio(rp!(), &class, "an artifact whose streaming writer was open while the collector ran finished successfully but cannot be read back: the collector removed chunks the writer had already stored", input());
                                 fail(&mut out, "violation", &class);
                                 r.expect.insert(ix, None);
                                 r.damaged = true;
@@ -571,7 +581,7 @@ fn run_case(m: &mut Model, rep: &mut Report, stream: &str, chunk: usize, max: Op
                         // count_orphans is the same number by another route
                         let gcx = GarbageCollector::new(r.ts.clone(), GcConfig::default());
                         if gcx.count_orphans() != s.orphaned_chunks {
-                            rp!().violation("tensor_blob.stats/orphans_differ", "stats().orphaned_chunks != GarbageCollector::count_orphans()", input());
+                            vio(rp!(), "tensor_blob.stats/orphans_differ", "stats().orphaned_chunks != GarbageCollector::count_orphans()", input());
                             fail(&mut out, "violation", "tensor_blob.stats/orphans_differ");
                         }
                         format!("ok {} {} {} {} {}", s.artifact_count, s.chunk_count, s.total_bytes, s.unique_bytes, s.orphaned_chunks)
@@ -637,7 +647,7 @@ fn run_case(m: &mut Model, rep: &mut Report, stream: &str, chunk: usize, max: Op
                 let want = present_before.len().min(*b);
                 let uniq: BTreeSet<&String> = seen.iter().collect();
                 if seen.len() != want || uniq.len() != seen.len() || seen.iter().any(|k| !present_before.contains(k)) {
-                    rp!().violation("tensor_blob.gc/batch_not_a_part_of_the_scan", "gc_cycle did not look at min(batch_size, chunk count) distinct existing chunk keys", input());
+                    vio(rp!(), "tensor_blob.gc/batch_not_a_part_of_the_scan", "gc_cycle did not look at min(batch_size, chunk count) distinct existing chunk keys", input());
                     fail(&mut out, "violation", "tensor_blob.gc/batch_not_a_part_of_the_scan");
                 }
                 if !quiet {
@@ -769,7 +779,7 @@ fn run_case(m: &mut Model, rep: &mut Report, stream: &str, chunk: usize, max: Op
             let id = r.ids[ix].clone();
             let back = bo(r.blob.get(&id));
             if !r.damaged && back.as_ref().ok() != Some(&bytes) {
-                rp!().violation("tensor_blob.get/read_differs_from_written", "get() right after a successful write does not return the written bytes", input());
+                vio(rp!(), "tensor_blob.get/read_differs_from_written", "get() right after a successful write does not return the written bytes", input());
                 fail(&mut out, "violation", "tensor_blob.get/read_differs_from_written");
             }
             if !r.damaged {
@@ -777,7 +787,7 @@ fn run_case(m: &mut Model, rep: &mut Report, stream: &str, chunk: usize, max: Op
                 let want = if bytes.is_empty() { 0 } else { (bytes.len() + chunk - 1) / chunk };
                 let got = bo(r.blob.metadata(&id)).map(|m| m.chunk_count).unwrap_or(usize::MAX);
                 if got != want {
-                    rp!().violation("tensor_blob.writer/chunk_count", "chunk_count != ceil(len/chunk_size)", input());
+                    vio(rp!(), "tensor_blob.writer/chunk_count", "chunk_count != ceil(len/chunk_size)", input());
                     fail(&mut out, "violation", "tensor_blob.writer/chunk_count");
                 }
                 let b = if bytes.is_empty() { 0 } else { ((bytes.len() - 1) % chunk) + 1 };
@@ -793,7 +803,7 @@ fn run_case(m: &mut Model, rep: &mut Report, stream: &str, chunk: usize, max: Op
             for k in present_before.difference(&present_after) {
                 if occ_before.get(k).copied().unwrap_or(0) > 0 && !r.damaged {
                     let class = format!("tensor_blob.{site}/live_chunk_collected");
-                    rp!().violation(&class, "collector removed a chunk that an existing artifact lists", input());
+                    vio(rp!(), &class, "collector removed a chunk that an existing artifact lists", input());
                     fail(&mut out, "violation", &class);
                 }
             }
@@ -830,7 +840,7 @@ fn run_case(m: &mut Model, rep: &mut Report, stream: &str, chunk: usize, max: Op
                                 Some(site) => format!("tensor_blob.{site}/live_chunk_collected"),
                                 None => format!("tensor_blob.{tag}/other_artifact_damaged"),
                             };
-                            rp!().violation(&class, "an artifact that was not deleted no longer reads back as written", input());
+                            vio(rp!(), &class, "an artifact that was not deleted no longer reads back as written", input());
                             fail(&mut out, "violation", &class);
                             r.expect.insert(ix, None);
                         }
@@ -838,18 +848,18 @@ fn run_case(m: &mut Model, rep: &mut Report, stream: &str, chunk: usize, max: Op
                         if (i + ix) % 3 == 0 {
                             let bufsz = 1 + (i * 7 + ix * 3) % (2 * chunk + 2);
                             if read_by_buffers(&r.blob, &id, bufsz).ok().as_ref() != Some(&bytes) {
-                                rp!().violation("tensor_blob.reader/read_differs_from_written", "BlobReader::read() with a fixed buffer size, repeated until it returns 0, does not return the written bytes", input());
+                                vio(rp!(), "tensor_blob.reader/read_differs_from_written", "BlobReader::read() with a fixed buffer size, repeated until it returns 0, does not return the written bytes", input());
                                 fail(&mut out, "violation", "tensor_blob.reader/read_differs_from_written");
                             }
                             // O5c: every chunk of an undamaged artifact passes the per-chunk check, none is reported missing
                             if check_chunks_exist(&r.ts, &id).ok().map(|l| l.is_empty()) != Some(true) {
-                                rp!().violation("tensor_blob.check_chunks_exist/false_alarm", "check_chunks_exist() reports a missing chunk of an undamaged artifact", input());
+                                vio(rp!(), "tensor_blob.check_chunks_exist/false_alarm", "check_chunks_exist() reports a missing chunk of an undamaged artifact", input());
                                 fail(&mut out, "violation", "tensor_blob.check_chunks_exist/false_alarm");
                             }
                         }
                         // O5a: undamaged artifacts verify
                         if r.blob.verify(&id).ok() != Some(true) {
-                            rp!().violation("tensor_blob.verify/false_alarm", "verify() is not Ok(true) on an undamaged artifact", input());
+                            vio(rp!(), "tensor_blob.verify/false_alarm", "verify() is not Ok(true) on an undamaged artifact", input());
                             fail(&mut out, "violation", "tensor_blob.verify/false_alarm");
                         }
                     }
@@ -863,7 +873,7 @@ fn run_case(m: &mut Model, rep: &mut Report, stream: &str, chunk: usize, max: Op
                 if let Ok(rec) = r.ts.get(k) {
                     let d = t_bytes(&rec, "_data").unwrap_or_default();
                     if !seen.insert(d) {
-                        rp!().violation("tensor_blob.store_chunk/duplicate_content", "two chunk records hold identical content", input());
+                        vio(rp!(), "tensor_blob.store_chunk/duplicate_content", "two chunk records hold identical content", input());
                         fail(&mut out, "violation", "tensor_blob.store_chunk/duplicate_content");
                     }
                     let refs = t_int(&rec, "_refs").unwrap_or(-1);
@@ -873,10 +883,10 @@ fn run_case(m: &mut Model, rep: &mut Report, stream: &str, chunk: usize, max: Op
                             Some(site) => format!("tensor_blob.{site}/live_chunk_collected"),
                             None => "tensor_blob.refs/below_occurrences".to_string(),
                         };
-                        rp!().violation(&class, "a chunk's refcount is below the number of times live artifacts list it (with a collector site: after that collector removed a chunk an open writer had stored, the finished artifact lists a chunk it holds no reference on)", input());
+                        vio(rp!(), &class, "a chunk's refcount is below the number of times live artifacts list it (with a collector site: after that collector removed a chunk an open writer had stored, the finished artifact lists a chunk it holds no reference on)", input());
                         fail(&mut out, "violation", &class);
                     } else if refs != o && !r.slack {
-                        rp!().violation("tensor_blob.refs/not_equal_occurrences", "refcount differs from occurrences although no writer was abandoned", input());
+                        vio(rp!(), "tensor_blob.refs/not_equal_occurrences", "refcount differs from occurrences although no writer was abandoned", input());
                         fail(&mut out, "violation", "tensor_blob.refs/not_equal_occurrences");
                     }
                 }
@@ -892,7 +902,7 @@ fn run_case(m: &mut Model, rep: &mut Report, stream: &str, chunk: usize, max: Op
                     _ => false,
                 };
                 if !ok {
-                    rp!().violation("tensor_blob.verify_chunk/wrong_verdict", "verify_chunk() is not (true iff the record holds the content it was stored with, ChunkMissing iff it is gone)", input());
+                    vio(rp!(), "tensor_blob.verify_chunk/wrong_verdict", "verify_chunk() is not (true iff the record holds the content it was stored with, ChunkMissing iff it is gone)", input());
                     fail(&mut out, "violation", "tensor_blob.verify_chunk/wrong_verdict");
                 }
             }
@@ -911,11 +921,11 @@ fn run_case(m: &mut Model, rep: &mut Report, stream: &str, chunk: usize, max: Op
                     .collect();
                 let v = r.blob.verify(&id);
                 if hit.len() == 1 && v.as_ref().ok() == Some(&true) {
-                    rp!().violation("tensor_blob.verify/alteration_not_detected", "verify() returned Ok(true) for an artifact with an altered or missing chunk", input());
+                    vio(rp!(), "tensor_blob.verify/alteration_not_detected", "verify() returned Ok(true) for an artifact with an altered or missing chunk", input());
                     fail(&mut out, "violation", "tensor_blob.verify/alteration_not_detected");
                 }
                 if hit.is_empty() && v.as_ref().ok() != Some(&true) {
-                    rp!().violation("tensor_blob.verify/false_alarm", "verify() is not Ok(true) on an artifact none of whose chunks is altered or missing", input());
+                    vio(rp!(), "tensor_blob.verify/false_alarm", "verify() is not Ok(true) on an artifact none of whose chunks is altered or missing", input());
                     fail(&mut out, "violation", "tensor_blob.verify/false_alarm");
                 }
                 if !quiet && !hit.is_empty() {
@@ -938,7 +948,7 @@ fn run_case(m: &mut Model, rep: &mut Report, stream: &str, chunk: usize, max: Op
         let left = r.ts.scan(CHUNK_PREFIX).len();
         let metas = r.ts.scan(META_PREFIX).len();
         if left != 0 || metas != 0 {
-            rp!().violation("tensor_blob.full_gc/chunks_left_after_delete_all", "chunks remain after deleting every artifact and running full_gc", input());
+            vio(rp!(), "tensor_blob.full_gc/chunks_left_after_delete_all", "chunks remain after deleting every artifact and running full_gc", input());
             fail(&mut out, "violation", "tensor_blob.full_gc/chunks_left_after_delete_all");
         }
         // model does the same
@@ -1281,7 +1291,7 @@ fn chunker_stream(m: &mut Model, rep: &mut Report, r: &mut Rng, n: u64) {
         let line = format!("chunks {c} {}", hex(&d));
         rep.compare("chunker", || json!({"c": c, "data": hex(&d)}), &imp, &m.ask(&line));
         if parts.concat() != d || parts.iter().any(|p| p.is_empty() || p.len() > c) || parts.iter().rev().skip(1).any(|p| p.len() != c) || parts.len() != Chunker::new(c).chunk_count(len) {
-            rep.violation("tensor_blob.chunker/not_a_partition", "chunks do not concatenate to the data in full-size pieces", json!({"c": c, "data": hex(&d)}));
+            vio(rep, "tensor_blob.chunker/not_a_partition", "chunks do not concatenate to the data in full-size pieces", json!({"c": c, "data": hex(&d)}));
         }
         rep.case("chunker", if parts.len() >= 2 { Some(&line) } else { None });
     }
@@ -1375,7 +1385,7 @@ fn thread_stream(rep: &mut Report, r: &mut Rng, rounds: u64) {
         if bad {
             collected += 1;
             let site = if with_full { "full_gc" } else if with_gc { "gc" } else { "writer" };
-            rep.violation(&format!("tensor_blob.{site}/live_chunk_collected"), "real threads: an artifact whose put succeeded and that was never deleted cannot be read back after concurrent puts/deletes/collection of the same content", input.clone());
+            vio(rep, &format!("tensor_blob.{site}/live_chunk_collected"), "real threads: an artifact whose put succeeded and that was never deleted cannot be read back after concurrent puts/deletes/collection of the same content", input.clone());
         }
         // oracle: refs >= occurrences; a lost update is turned into a collected live chunk deterministically
         let occ = occurrences(&ts);
@@ -1393,9 +1403,9 @@ fn thread_stream(rep: &mut Report, r: &mut Rng, rounds: u64) {
             }
             let _ = bo(b0.gc());
             let survivor_ok = kept.first().map(|id| bo(b0.get(id)).ok().as_ref() == Some(&shared)).unwrap_or(true);
-            rep.violation("tensor_blob.refs/lost_update", "real threads: concurrent put/delete of identical content left a refcount below the number of live references (read-modify-write on `_refs` is not atomic)", input.clone());
+            vio(rep, "tensor_blob.refs/lost_update", "real threads: concurrent put/delete of identical content left a refcount below the number of live references (read-modify-write on `_refs` is not atomic)", input.clone());
             if !survivor_ok {
-                rep.violation("tensor_blob.gc/live_chunk_collected", "after a refcount lost update, deleting the other artifacts and running gc() removed chunks of a live artifact", input);
+                vio(rep, "tensor_blob.gc/live_chunk_collected", "after a refcount lost update, deleting the other artifacts and running gc() removed chunks of a live artifact", input);
             }
         }
         rep.case("threads", Some(&format!("{round}")));
@@ -1410,6 +1420,8 @@ enum TSpec {
     Put(Vec<u8>),
     /// delete the pre-existing artifact a<n>
     Del(u32),
+    /// set_meta on the pre-existing artifact a<n> (get the metadata record, put it back)
+    Touch(u32),
     Gc,
     FullGc,
 }
@@ -1430,7 +1442,7 @@ struct ConcCase {
 fn conc_json(c: &ConcCase, sched: &[usize]) -> Value {
     json!({"chunk_size": c.chunk, "pre": c.pre.iter().map(op_json).collect::<Vec<_>>(),
         "threads": c.threads.iter().map(|t| match t {
-            TSpec::Put(d) => json!({"put": hex(d)}), TSpec::Del(a) => json!({"delete": a}), TSpec::Gc => json!("gc"), TSpec::FullGc => json!("full_gc") }).collect::<Vec<_>>(),
+            TSpec::Put(d) => json!({"put": hex(d)}), TSpec::Del(a) => json!({"delete": a}), TSpec::Touch(a) => json!({"set_meta": a}), TSpec::Gc => json!("gc"), TSpec::FullGc => json!("full_gc") }).collect::<Vec<_>>(),
         "schedule": sched, "post": c.post.iter().map(op_json).collect::<Vec<_>>()})
 }
 
@@ -1544,13 +1556,14 @@ fn run_conc(m: &mut Model, rep: &mut Report, stream: &str, case: &ConcCase, rng:
             let ts = r.ts.clone();
             let sp = sp.clone();
             let res = results.clone();
-            let del_id = if let TSpec::Del(a) = &sp { r.uuid_of(*a) } else { String::new() };
+            let del_id = if let TSpec::Del(a) | TSpec::Touch(a) = &sp { r.uuid_of(*a) } else { String::new() };
             Box::new(move || {
                 let conf = cfg(c, None).with_gc_min_age(Duration::from_secs(3600));
                 let b = bo(BlobStore::new(ts, conf)).unwrap();
                 let out: Result<String, String> = match &sp {
                     TSpec::Put(d) => bo(b.put("w", d, PutOptions::default())).map_err(|e| err_class(&e).to_string()),
                     TSpec::Del(_) => bo(b.delete(&del_id)).map(|_| "ok".to_string()).map_err(|e| err_class(&e).to_string()),
+                    TSpec::Touch(_) => bo(b.set_meta(&del_id, "k", "v")).map(|_| "ok".to_string()).map_err(|e| err_class(&e).to_string()),
                     TSpec::Gc => bo(b.gc()).map(|s| format!("{} {}", s.deleted, s.freed_bytes)).map_err(|e| err_class(&e).to_string()),
                     TSpec::FullGc => bo(b.full_gc()).map(|s| format!("{} {}", s.deleted, s.freed_bytes)).map_err(|e| err_class(&e).to_string()),
                 };
@@ -1648,6 +1661,7 @@ fn run_conc(m: &mut Model, rep: &mut Report, stream: &str, case: &ConcCase, rng:
         .map(|(i, sp)| match sp {
             TSpec::Put(d) => format!("wd:{}:{}", model_id[i].unwrap(), hex(d)),
             TSpec::Del(a) => format!("d:{a}"),
+            TSpec::Touch(a) => format!("t:{a}"),
             TSpec::Gc => format!("g:{MC_CONC}:{}", keys_of(i, "g:")),
             TSpec::FullGc => format!("f:{}:{}", keys_of(i, "gm:"), keys_of(i, "g:")),
         })
@@ -1664,7 +1678,7 @@ fn run_conc(m: &mut Model, rep: &mut Report, stream: &str, case: &ConcCase, rng:
     agreed &= rep.compare(&format!("{stream}.trace"), || json!({"case": input(), "line": model_line}), &imp, &mo);
     agreed &= rep.compare(&format!("{stream}.image"), || json!({"case": input(), "line": model_line}), &r.image(), &m.ask("image"));
     for (th, l) in &trace {
-        rep.hit(&format!("conc.call.{}.{}", match &case.threads[*th] { TSpec::Put(_) => "writer", TSpec::Del(_) => "deleter", TSpec::Gc => "gc", TSpec::FullGc => "full_gc" }, l.split(':').next().unwrap_or("?")));
+        rep.hit(&format!("conc.call.{}.{}", match &case.threads[*th] { TSpec::Put(_) => "writer", TSpec::Del(_) => "deleter", TSpec::Touch(_) => "updater", TSpec::Gc => "gc", TSpec::FullGc => "full_gc" }, l.split(':').next().unwrap_or("?")));
     }
     // ---- oracles: the property on the real outputs
     let mut failures: Vec<(String, String)> = Vec::new();
@@ -1676,7 +1690,8 @@ fn run_conc(m: &mut Model, rep: &mut Report, stream: &str, case: &ConcCase, rng:
     // mixes for which a theorem says no untouched artifact can be damaged get their own (unlisted) classes:
     //   no collector thread            -> concurrent_no_collector_partial
     //   no writer, distinct deleters   -> concurrent_deleters_collectors_safe
-    let proved_safe = !has_writer && targets.len() == n_del;
+    let has_updater = case.threads.iter().any(|t| matches!(t, TSpec::Touch(_)));
+    let proved_safe = !has_writer && !has_updater && targets.len() == n_del;
     let site = if !has_full && !has_gc {
         "tensor_blob.conc/live_chunk_lost_without_collector"
     } else if proved_safe {
@@ -1698,13 +1713,21 @@ fn run_conc(m: &mut Model, rep: &mut Report, stream: &str, case: &ConcCase, rng:
             None => true,
         })
     };
+    // outside the property's quantifier: a metadata update overlapping the delete of the same artifact re-creates it
+    let mut resurrected: Vec<usize> = Vec::new();
+    for ix in &targets {
+        let deleted_ok = case.threads.iter().enumerate().any(|(i, t)| matches!(t, TSpec::Del(a) if *a as usize == *ix) && matches!(&results[i], Some(Ok(_))));
+        if deleted_ok && bo(r.blob.exists(&r.ids[*ix])).unwrap_or(false) {
+            resurrected.push(*ix);
+        }
+    }
     if !survivors_ok(&r) {
         failures.push((site.to_string(), "an artifact that exists and that no thread deleted cannot be read back after the interleaving".to_string()));
     }
     let low_refs = |r: &Real| -> bool {
         occurrences(&r.ts).iter().any(|(k, o)| r.ts.get(k).ok().and_then(|t| t_int(&t, "_refs")).unwrap_or(0) < *o)
     };
-    if low_refs(&r) {
+    if low_refs(&r) && resurrected.is_empty() {
         // without a writer and with distinct deleters a refcount can only end up too HIGH (a lost decrement)
         let class = if proved_safe { "tensor_blob.conc/refs_below_occurrences_without_writer" } else { "tensor_blob.refs/lost_update" };
         failures.push((class.to_string(), "after the interleaving a chunk's refcount is below the number of times existing artifacts list it".to_string()));
@@ -1725,6 +1748,16 @@ fn run_conc(m: &mut Model, rep: &mut Report, stream: &str, case: &ConcCase, rng:
         };
         failures.push((post_site.to_string(), "after the interleaving and a later sequential collection an artifact that was never deleted cannot be read back".to_string()));
     }
+    if !resurrected.is_empty() {
+        let unreadable: Vec<usize> = resurrected.iter().copied().filter(|ix| bo(r.blob.get(&r.ids[*ix])).is_err()).collect();
+        rep.hit("conc.observed.update_resurrected_deleted_artifact");
+        if rep.distribution.get("conc.observed.update_resurrected_deleted_artifact").copied().unwrap_or(0) <= 2 {
+            rep.observe(json!({"outside_quantifier": "tensor_blob.update_metadata/resurrects_deleted_artifact",
+                "what": "a set_meta that overlapped a successful delete() of the same artifact put the metadata record back: the artifact exists again while its chunks hold no reference for it",
+                "resurrected": resurrected, "unreadable_after_later_collection": unreadable,
+                "input": conc_json(case, &sched), "lean": "concurrent_update_resurrects_deleted_witness"}));
+        }
+    }
     ConcOut { sched, model_line, failures, agreed }
 }
 
@@ -1736,11 +1769,13 @@ fn report_conc(rep: &mut Report, stream: &str, name: Option<&str>, case: &ConcCa
     for (class, what) in &out.failures {
         if dup_targets {
             // two deleters of the same artifact: candidate finding, not yet listed — recorded, not judged
-            rep.observe(json!({"candidate_class": "tensor_blob.delete/double_decrement", "oracle_class": class, "what": what,
-                "input": conc_json(case, &out.sched), "lean": "concurrent_double_delete_witness"}));
             rep.hit("conc.candidate.double_decrement");
+            if rep.distribution.get("conc.candidate.double_decrement").copied().unwrap_or(0) <= 3 {
+                rep.observe(json!({"candidate_class": "tensor_blob.delete/double_decrement", "oracle_class": class, "what": what,
+                    "input": conc_json(case, &out.sched), "lean": "concurrent_double_delete_witness"}));
+            }
         } else {
-            rep.violation(class, what, conc_json(case, &out.sched));
+            vio(rep, class, what, conc_json(case, &out.sched));
         }
     }
     rep.case(stream, Some(&out.model_line));
@@ -1762,6 +1797,8 @@ fn conc_directed(m: &mut Model, rep: &mut Report, rng: &mut Rng) {
         ("gc-vs-writer-on-orphan", ConcCase { chunk: 1, pre: vec![Op::Put(vec![1]), Op::Delete(0)], threads: vec![TSpec::Put(vec![1]), TSpec::Gc], script: Some(vec![1, 1, 0, 0, 0, 1, 0]), post: vec![] }),
         // two deleters of the same artifact both decrement: the chunk it shares with a1 drops to 0 references
         ("double-delete-then-gc", ConcCase { chunk: 1, pre: vec![Op::Put(vec![1]), Op::Put(vec![1])], threads: vec![TSpec::Del(0), TSpec::Del(0)], script: Some(vec![0, 1, 0, 0, 1, 1, 0, 1]), post: vec![gc_all.clone()] }),
+        // outside the quantifier: set_meta overlapping the delete of the same artifact resurrects it (observation only)
+        ("update-resurrects-deleted", ConcCase { chunk: 1, pre: vec![Op::Put(vec![1])], threads: vec![TSpec::Touch(0), TSpec::Del(0)], script: Some(vec![0, 1, 1, 1, 1, 0]), post: vec![gc_all.clone()] }),
         // safe: deleters of different artifacts with both collectors (Props: concurrent_deleters_collectors_safe)
         ("deleters-and-collectors", ConcCase { chunk: 1, pre: vec![Op::Put(vec![1, 2]), Op::Put(vec![2, 3]), Op::Put(vec![3, 1]), Op::Abandon(vec![vec![9]])],
             threads: vec![TSpec::Del(0), TSpec::Del(1), TSpec::Gc, TSpec::FullGc], script: Some(vec![]), post: vec![gc_all.clone(), Op::FullGc] }),
@@ -1831,6 +1868,9 @@ fn conc_stream(m: &mut Model, rep: &mut Report, r: &mut Rng, rounds: u64) {
             }
             threads.push(TSpec::Del(a));
         }
+        if !alive.is_empty() && r.chance(1, 5) {
+            threads.push(TSpec::Touch(*r.pick(&alive)));
+        }
         match r.below(10) {
             0..=2 => threads.push(TSpec::Gc),
             3..=5 => threads.push(TSpec::FullGc),
@@ -1848,7 +1888,7 @@ fn conc_stream(m: &mut Model, rep: &mut Report, r: &mut Rng, rounds: u64) {
         let case = ConcCase { chunk: c, pre, threads, script: None, post };
         let out = run_conc(m, rep, "conc", &case, r);
         report_conc(rep, "conc", None, &case, &out);
-        let kinds: BTreeSet<&str> = case.threads.iter().map(|t| match t { TSpec::Put(_) => "w", TSpec::Del(_) => "d", TSpec::Gc => "g", TSpec::FullGc => "f" }).collect();
+        let kinds: BTreeSet<&str> = case.threads.iter().map(|t| match t { TSpec::Put(_) => "w", TSpec::Del(_) => "d", TSpec::Touch(_) => "t", TSpec::Gc => "g", TSpec::FullGc => "f" }).collect();
         rep.hit(&format!("conc.mix.{}.n{}", kinds.into_iter().collect::<Vec<_>>().join(""), case.threads.len()));
         rep.hit(&format!("conc.sched_len.{}", match out.sched.len() { 0..=9 => "0-9", 10..=19 => "10-19", 20..=39 => "20-39", _ => "40+" }));
         if rep.samples.len() < 14 && r.chance(1, 60) {
@@ -1864,6 +1904,27 @@ fn main() {
          non-trivial = at least one successful write and at least one successful delete or collecting gc; \
          distinct = distinct canonical line sequence",
     );
+    rep.expected_branches = [
+        // every operation of the model with each of its outcomes
+        "op.put.ok", "op.put.err_empty_data", "op.put.err_too_large", "op.stream.ok", "op.abandon.ok", "op.wopen.ok", "op.wwrite.ok", "op.wfinish.ok", "op.wdrop.ok",
+        "op.get.ok", "op.get.err_not_found", "op.get.err_chunk_missing", "op.delete.ok", "op.delete.err_not_found",
+        "op.verify.ok", "op.verify.err_not_found", "op.verify.err_chunk_missing", "op.gc.ok", "op.gcsel.ok", "gc_batch.partial", "gc_batch.whole", "op.background_gc",
+        "op.fullgc.ok", "op.repair.ok", "op.corrupt.ok", "op.drop.ok", "op.exists.ok", "op.stats.ok", "op.vchunk.ok", "op.vchunk.err_chunk_missing",
+        "op.cexist.ok", "op.cexist.err_not_found", "op.orphans.ok", "op.touch.ok", "op.touch.err_not_found",
+        "op.ropen.ok", "op.ropen.err_not_found", "op.rnext.ok", "op.rnext.err_chunk_missing", "op.rread.ok", "op.rread.err_chunk_missing",
+        "op.rall.ok", "op.rall.err_chunk_missing", "op.rverify.ok", "op.rverify.err_chunk_missing", "op.rdrop.ok",
+        "verify.damaged.ok_false", "verify.damaged.err_chunk_missing",
+        // every store call of every thread kind of the concurrent model
+        "conc.call.writer.e", "conc.call.writer.g", "conc.call.writer.p", "conc.call.writer.pm",
+        "conc.call.deleter.gm", "conc.call.deleter.g", "conc.call.deleter.p", "conc.call.deleter.dm",
+        "conc.call.updater.gm", "conc.call.updater.pm",
+        "conc.call.gc.sc", "conc.call.gc.g", "conc.call.gc.d",
+        "conc.call.full_gc.sm", "conc.call.full_gc.gm", "conc.call.full_gc.sc", "conc.call.full_gc.g", "conc.call.full_gc.d",
+        "conc.candidate.double_decrement",
+    ]
+    .iter()
+    .map(|x| x.to_string())
+    .collect();
     let mut m = Model::spawn(&args.driver);
     let root = Rng::new(args.seed);
     let scale: u64 = if args.thorough { 12 } else { 1 };
